@@ -20,7 +20,7 @@ LEVEL_TEXT = ("Lean theorems: (1) FORWARD SIMULATION definitional semantics => m
               "(7) STAGE 6, HEAP VALUES TOGETHER WITH CALLS, COLLECTIONS INSIDE THE SIMULATION (Sim6*.lean, 5 400 lines): the union of stages 4 and 5 - functions, calls, recursion, locals, antwoord, control flow AND floats, strings, lists, indexing, index assignment, all operators and builtins inside bodies and at top level, arrays holding functions, heap values as arguments/results/globals; the address map between the semantics' store (never frees) and the machine heap shrinks at each collection to what survived (GC lemma Sim6.hinv_gc / C01_collection_is_transparent), what a caller holds is a root and stays related (Keep); C01_heap_and_calls_simulation (all seven statements for every fuel), C01_heap_and_calls_program (by validation), C01_heap_and_calls_eval_text (NO validation: syntactic fragment Sim6.S6Top = everything but nested function literals and stop/volgende under pending operands; evalText = specText or the machine's stack/frame limit). C01_parsed_float_literals_are_plain: the side condition on float literals holds for every parsed program (C01_heap_and_calls_eval_text_syntactic: hypothesis on the SHAPE of the parsed tree only). (8) STAGE 7, NESTED FUNCTION LITERALS (Sim7*.lean, 5 200 lines): literals in every expression position and named declarations in any block; function table of all literals, entry points and function ids pairwise distinct as theorems; bodies checked against the persistent global scope (a literal in a top-level block using a block-scoped global is outside: U1, the property is false there); C01_nested_functions_simulation/_program/_eval_text (validation) and _eval_text_no_validation (syntactic class Sim7.S7Top). (9) STAGE 8, NAMED function literals in every expression position (Sim8*.lean, 3 200 lines; expression judgments with scope outputs; C01_named_literals_simulation, C01_named_literals_eval_text by validation). "
               "(2) the semantics is well defined: more fuel never changes a finished evaluation (whole language); more budget never changes a finished run. "
               "Outside the proved fragments (a named literal referring to itself from inside a larger expression; literals in top-level blocks using block-scoped globals - U1; stop/volgende under pending operands, where the property is false - finding K3; the machine's 65535-slot/frame limit) the property is decided by the correspondence: "
-              "the real eval (value, printed output, error kind) against the definitional evaluator Spec.evalProgram on bounded-exhaustive, boundary and type-directed random programs, and against the machine model (steps, stack at Halt, collections). SESSION 7: DIVERGENCE PRESERVATION for stages 3, 6 and 7 (C01_control_flow_divergence, C01_heap_and_calls_divergence, C01_nested_functions_divergence): a text of the syntactic fragment whose definitional evaluation runs out of every fuel exhausts every instruction budget on the machine (or, with calls, stops for good at the machine's stack/frame limit, reported as an index error) - by a second induction on the fuel, parallel to the forward simulation, with the quantitative bound 'out of fuel with fuel f => at least (f + K - d)/K further instructions'; and the CONVERSE of the forward theorems (C01_*_machine_answer_is_definitional): whatever the machine answers within some budget - other than the limit - is the definitional answer for some fuel (or the text is one of the unspecified behaviours, witness C01_converse_needs_unspec); non-vacuity: three programs proved divergent for every fuel, and the counting loop proved NOT divergent (it ends in the range error).")
+              "the real eval (value, printed output, error kind) against the definitional evaluator Spec.evalProgram on bounded-exhaustive, boundary and type-directed random programs, and against the machine model (steps, stack at Halt, collections). SESSION 7: DIVERGENCE PRESERVATION for stages 3, 6 and 7 (C01_control_flow_divergence, C01_heap_and_calls_divergence, C01_nested_functions_divergence): a text of the syntactic fragment whose definitional evaluation runs out of every fuel exhausts every instruction budget on the machine (or, with calls, stops for good at the machine's stack/frame limit, reported as an index error) - by a second induction on the fuel, parallel to the forward simulation, with the quantitative bound 'out of fuel with fuel f => at least (f + K - d)/K further instructions'; and the CONVERSE of the forward theorems (C01_*_machine_answer_is_definitional): whatever the machine answers within some budget - other than the limit - is the definitional answer for some fuel (or the text is one of the unspecified behaviours, witness C01_converse_needs_unspec); non-vacuity: three programs proved divergent for every fuel, and the counting loop proved NOT divergent (it ends in the range error). THE MACHINE-LIMIT DISJUNCT IS PRECISE (after the audit): AtLimit = the failing instruction is a Call whose stack/frame limit test fails; HitsLimit / TextHitsLimit at program / text level replace 'some index error' in every forward, divergence and converse theorem with calls; C01_limit_is_observable; C01_ordinary_index_error_is_definitional (the converse applies to an ordinary index error, non-vacuously).")
 LEVEL_NOTE = ("Trusted: Lean kernel (axioms propext, Classical.choice, Quot.sound); the hand-written model is tied to the code by the correspondence only; harness/driver I/O; Rust std. "
               "Partial: the simulation theorem covers the whole language except self-referring named literals inside larger expressions, U1 and K3 shapes (where the property is false); divergence preservation is proved for stages 3, 6, 7 and 8 (session 7) with the machine's limit as a disjunct once calls exist; the resolver part (R1) is proved for the control-flow fragment, the whole function-free language (stage 5), the syntactic function fragment (stage 4) the stage-6 fragment and the stage-7 class (nested literals at top level outside blocks and anywhere inside bodies); outside those syntactic fragments the end-to-end theorems go through the proved-sound per-program validation (inFragment / inFragmentH).")
 TECHNIQUE = 'Lean 4 proof (forward simulation definitional semantics => bytecode machine by induction on fuel; fuel/budget monotonicity) + differential correspondence eval vs Spec.eval vs machine model'
